@@ -110,6 +110,8 @@ module Coq_Pos :
 
   val mul : positive -> positive -> positive
 
+  val iter : ('a1 -> 'a1) -> 'a1 -> positive -> 'a1
+
   val compare_cont : comparison -> positive -> positive -> comparison
 
   val compare : positive -> positive -> comparison
@@ -196,7 +198,13 @@ module Z :
 
   val mul : z -> z -> z
 
+  val pow_pos : z -> positive -> z
+
+  val pow : z -> z -> z
+
   val compare : z -> z -> comparison
+
+  val leb : z -> z -> bool
 
   val ltb : z -> z -> bool
 
@@ -205,6 +213,8 @@ module Z :
   val max : z -> z -> z
 
   val min : z -> z -> z
+
+  val abs : z -> z
 
   val of_N : n -> z
 
@@ -759,6 +769,20 @@ type sstmt = char list stmt
 type sprogram = char list program
 
 val apply_fun : fkind -> sexpr list -> sexpr option
+
+val int_lit : char list -> bool
+
+val digits_Z : z -> char list -> z
+
+val int_val : char list -> z
+
+val int_text : z -> char list
+
+val small_int : z -> bool
+
+val fold2 : (z -> z -> z) -> char list -> char list -> sexpr -> sexpr
+
+val fold_ints : sexpr -> sexpr
 
 val p_expr :
   (char list -> nat option) -> nat -> ctok list -> (sexpr * ctok list) option
